@@ -60,6 +60,7 @@ func TestReplay(t *testing.T) {
 	}
 	rec := vstat.New(rf.Property, "replay")
 	defer rec.Flush(true)
+	replayT = t
 	msg := replayOne(rf)
 	if msg != "" {
 		rec.AddViolation(json.RawMessage(rf.Scenario), rf.Kind, rf.Class, "%s", msg)
@@ -70,6 +71,8 @@ func TestReplay(t *testing.T) {
 	rec.Case(json.RawMessage(rf.Scenario), false, "replayed")
 	fmt.Println("REPLAY-OK")
 }
+
+var replayT *testing.T
 
 func replayOne(rf *vstat.ReplayFile) string {
 	if rf.Part == "latency" {
@@ -83,6 +86,9 @@ func replayOne(rf *vstat.ReplayFile) string {
 	}
 	if rf.Part == "parallel" {
 		return replayPar(rf)
+	}
+	if rf.Part == "owners" {
+		return replayOwners(replayT, rf)
 	}
 	if rf.Part == "race" {
 		return replayRace(rf)
